@@ -432,6 +432,90 @@ def rand_basic_index(rng, shape):
     return tuple(ents)
 
 
+def fam_chained(chk, impl, tier):
+    """two or three successive getitems (the optimizer fuses them into one source index): x[i1][i2][i3] must be NumPy's"""
+    import random as _random
+    rng = _random.Random(f"C12-chained-{chk.seed}")
+    for k in range(6000 if tier == "thorough" else 700):
+        shape, chunks = rand_shape_chunks(rng, dims=(1, 2, 3, 4, 5, 6, 7, 9))
+        a = base_array(shape)
+        x = impl.arr(a, chunks)
+        idxs, cur = [], a
+        ok = True
+        for _ in range(rng.choice([2, 2, 3])):
+            if cur.ndim == 0:
+                break
+            ix = rand_basic_index(rng, cur.shape)
+            if rng.random() < 0.5 and cur.ndim and cur.shape[0] > 1:
+                # a strided / offset slice followed (next round) by an integer is the interesting fusion
+                st = rng.choice([2, 3, -1, -2, 1])
+                ix = (slice(rng.choice([None, 0, 1, 2]), None, st),) + tuple(ix[1:]) if isinstance(ix, tuple) else (slice(None, None, st),)
+            try:
+                cur = cur[ix]
+            except Exception:  # noqa: BLE001
+                ok = False
+                break
+            idxs.append(ix)
+            if rng.random() < 0.5 and cur.ndim and cur.shape[0] > 0:
+                j = rng.randrange(-cur.shape[0], cur.shape[0])
+                cur = cur[j]
+                idxs.append(j)
+        if not ok or len(idxs) < 2:
+            continue
+
+        def apply(y):
+            for ix in idxs:
+                y = y[ix]
+            return y
+        want, werr = np_eval(lambda: apply(a))
+        got, gerr = da_eval(lambda: apply(x))
+        data = {"fn": "chained-getitem", "shape": shape, "chunks": chunks, "indices": [idx_repr(as_tuple(i)) for i in idxs]}
+        chk.count(f"chained:{len(idxs)}")
+        chk.case(("chained", k, shape, chunks, repr(data["indices"])), nontrivial=True, sample=data if k < 3 else None)
+        judge(chk, "chained", data, got, gerr, want, werr)
+
+
+def fam_daskint_multi(chk, impl, tier):
+    """several integer dask arrays in ONE index tuple, at least one of them 0-d (it drops its axis like a Python int), on
+    arrays of rank >= 3; NumPy is the oracle"""
+    import random as _random
+    rng = _random.Random(f"C12-daskint-multi-{chk.seed}")
+    da = impl.da
+    for k in range(2500 if tier == "thorough" else 300):
+        shape, chunks = rand_shape_chunks(rng, ranks=(3, 3, 4), dims=(1, 2, 3, 4, 5))
+        axes = sorted(rng.sample(range(len(shape)), 2))
+        ents_np, ents_da = [], []
+        kinds = []
+        for j, d in enumerate(shape):
+            if j in axes:
+                zero_d = j == axes[0] or rng.random() < 0.5
+                if zero_d:
+                    v = np.array(rng.randrange(-d, d), dtype=int)
+                    ents_np.append(v)
+                    ents_da.append(da.from_array(v, chunks=()))
+                    kinds.append("0d")
+                else:
+                    n = rng.randint(1, 4)
+                    v = np.array([rng.randrange(-d, d) for _ in range(n)], dtype=int)
+                    ents_np.append(v)
+                    ents_da.append(da.from_array(v, chunks=(rand_chunks_axis(rng, n) if rng.random() < 0.5 else (n,),)))
+                    kinds.append("1d")
+            else:
+                e = rng.choice([slice(None), slice(None), slice(1, None), rng.randrange(-d, d)])
+                ents_np.append(e)
+                ents_da.append(e)
+        a = base_array(shape)
+        x = impl.arr(a, chunks)
+        want, werr = np_eval(lambda: a[tuple(ents_np)])
+        got, gerr = da_eval(lambda: x[tuple(ents_da)])
+        data = {"fn": "dask-int-multi", "shape": shape, "chunks": chunks, "index": idx_repr(tuple(ents_np)), "kinds": kinds}
+        chk.count("dask-int-multi:" + "+".join(kinds))
+        chk.case(("dask-int-multi", k, shape, chunks, idx_repr(tuple(ents_np))), nontrivial=werr is None, sample=data if k < 3 else None)
+        judge(chk, "dask-int", data, got, gerr, want, werr, a=a, idx=tuple(int(e) if isinstance(e, np.ndarray) and e.ndim == 0 else e for e in ents_np),
+              allow_raise=((AssertionError, ""), (ValueError, ""), (IndexError, "")) if kinds.count("1d") > 1 else (),
+              extra_sig={"multi": True})
+
+
 def fam_basic(chk, impl, tier):
     rng = chk.rng
     R = BasicRunner(chk, impl)
@@ -1008,6 +1092,8 @@ def run(chk: Check):
     fam_list(chk, impl, chk.tier)
     fam_bool(chk, impl, chk.tier)
     fam_daskint(chk, impl, chk.tier)
+    fam_chained(chk, impl, chk.tier)
+    fam_daskint_multi(chk, impl, chk.tier)
     fam_vindex(chk, impl, chk.tier)
     fam_blocks(chk, impl, chk.tier)
     fam_unknown(chk, impl, chk.tier)
